@@ -6,9 +6,13 @@ import concurrent.futures
 import functools
 import hashlib
 import itertools
+import os
 import random
+import re
 
 import networkx as nx
+
+from common import CoqEvalError
 
 from golem.core.adapter import register_native
 from golem.core.adapter.adapt_registry import AdaptRegistry
@@ -387,8 +391,20 @@ def _worker(args):
 # ----------------------------------------------------------------------------------------
 def evaluate(ctx, group, items, shard):
     """items: list of (par, gid, params, case text).  Flags disagreements / violations per run."""
-    res = ctx.coq_cases(group, REQ, FN, [it[3] for it in items], 2, shard=shard, case_ty=CASE_TY,
-                        preamble=PREAMBLE, timeout=1500)
+    texts = [it[3] for it in items]
+    try:
+        res = ctx.coq_cases(group, REQ, FN, texts, 2, shard=shard, case_ty=CASE_TY, preamble=PREAMBLE, timeout=1500)
+    except CoqEvalError as ex:
+        # a coqc process that dies without output was killed from outside (out-of-memory killer on the shared
+        # machine): evaluate once more with smaller files; a genuine failure fails again and is reported
+        if not str(ex).rstrip().endswith('):'):
+            raise
+        ctx.notes.append('coqc died without output on a %s shard; evaluated again with smaller shards' % group)
+        res = ctx.coq_cases(group, REQ, FN, texts, 2, shard=max(20, shard // 4), case_ty=CASE_TY, preamble=PREAMBLE,
+                            timeout=1500)
+        kept = re.search(r'\(kept as ([^)]+)\)', str(ex))
+        if kept and os.path.basename(kept.group(1)).startswith('cases_') and os.path.exists(kept.group(1)):
+            os.remove(kept.group(1))      # the copy of the killed shard is of no use once the retry succeeded
     bad = [it for it, (ag, ho) in zip(items, res) if not (ag and ho)]
     # regenerate the runs of the flagged graphs (deterministic) and evaluate them one by one
     singles, owners = [], []
@@ -513,7 +529,7 @@ def run(ctx):
     group = 'all-n4' if len(codes) == 1 << 16 else 'sample-n4'
     merge_acc(ctx, group, acc)
     ctx.set_exhaustive(group, len(codes) == 1 << 16)
-    evaluate(ctx, group, items, shard=ctx.pick(250, 2048))
+    evaluate(ctx, group, items, shard=ctx.pick(250, 1024))
 
 
 def replay(ctx, payload):
